@@ -190,8 +190,7 @@ def cfg_text(nkeys, maxops, withtx=True, emit=True):
 def run(prop, tier):
     t0 = time.time()
     rng = random.Random(vf.seed() * 49979687 + 6)
-    workdir = os.path.join(vf.OUT, prop, tier)
-    os.makedirs(workdir, exist_ok=True)
+    workdir = vf.fresh_workdir(prop, tier)
     binary = vf.build_harness()
     notes = []
     states = trans = 0
